@@ -93,6 +93,9 @@ where
         None       => { let _ = id_mapped_systems.systems.insert(sys_name, Some(system)); },
     }
 
+    // apply commands the system queued directly on the world's command queue (e.g. through `DeferredWorld`)
+    world.flush();
+
     result
 }
 
@@ -141,6 +144,9 @@ where
         Some(node) => { let _ = node.replace(system); },
         None       => { let _ = id_mapped_systems.systems.insert(sys_name, Some(system)); },
     }
+
+    // apply commands the system queued directly on the world's command queue (e.g. through `DeferredWorld`)
+    world.flush();
 
     Ok(result)
 }
